@@ -30,13 +30,23 @@ ENERGY = {'kilojoule/mole': (1e3, True), 'kilocalorie/mole': (4184.0, True), 'jo
           'kJ/kmol': (1.0, True), 'J/mmol': (1e3, True), 'kJ mol^-1': (1e3, True), 'kelvin*molar_gas_constant': (KB * NA, True),
           'kelvin*boltzmann_constant': (KB, False), 'eV/particle': (1.602176634e-19, False), 'millijoule': (1e-3, False)}
 RTOL = 1e-9
+REDUCED = 'mc*dc**2/ps**2'
+# the dalton is a MEASURED constant (not fixed by the 2019 SI): its value is taken from the unit library itself (trusted base)
+import pint as _pint
+DALTON = float(_pint.UnitRegistry()('dalton').to('kilogram').magnitude)
+MASS = {'gram/mole': (1e-3, True), 'dalton': (DALTON, False), 'kilogram': (1.0, False), 'kg/mol': (1.0, True), 'g/mol': (1e-3, True)}
 _S = {'ctx': None, 'cfg': {}}
 METHODS = ['toKelvin', 'toCelcius', 'toInvAngstrom', 'toInvNanometer', 'toConcentration', 'toVolumeFraction']
 
 
 def expected(name, cfg, args):
     dc_m = cfg['dc'] * LEN[cfg['dc_unit']]
-    f, molar = ENERGY[cfg['ec_unit']]
+    if cfg['ec_unit'] == REDUCED:
+        # the Lennard-Jones way of writing the energy unit: e_c = m_c d_c^2 / tau^2 in the converter's own reduced units
+        mf, mmolar = MASS[cfg.get('mc_unit', 'gram/mole')]
+        f, molar = cfg.get('mc', 14.02) * mf * dc_m ** 2 / 1e-24, mmolar
+    else:
+        f, molar = ENERGY[cfg['ec_unit']]
     e_J = cfg['ec'] * f / (NA if molar else 1.0)
     x = np.asarray(args[0], dtype=float)
     if name == 'toKelvin':
@@ -139,9 +149,18 @@ def run_case(ctx, case):
         else:
             from pyPRISM.util import UnitConverter as cls
         ctx.hook('uc.class_lookup')
-        uc = cls(dc=dcv, dc_unit=case['dc_unit'], ec=ecv, ec_unit=case['ec_unit'])
+        mc_unit = list(MASS)[case['seed'] // 7 % len(MASS)]
+        mcv = [14.02, 1.0, 72.0][case['seed'] // 3 % 3]
+        ec_unit = case['ec_unit'] if case['seed'] % 6 else REDUCED
+        cfg.update(mc=mcv, mc_unit=mc_unit, ec_unit=ec_unit)
+        if case['seed'] % 4 == 0 and ec_unit != REDUCED:
+            uc = cls(dc=dcv, dc_unit=case['dc_unit'], ec=ecv, ec_unit=ec_unit)                       # characteristic mass left at its default
+            cfg.update(mc=14.02, mc_unit='gram/mole')
+        else:
+            uc = cls(dc=dcv, dc_unit=case['dc_unit'], mc=mcv, mc_unit=mc_unit, ec=ecv, ec_unit=ec_unit)
+        ctx.count('mc_unit', cfg['mc_unit'])
     except Exception as e:   # noqa - valid characteristic values: a converter must be obtainable every time
-        ctx.violation('uc:constructor-raises', 'pyPRISM.util.UnitConverter(dc=%r %s, ec=%r %s) raises %s: %s' % (dcv, case['dc_unit'], ecv, case['ec_unit'], type(e).__name__, str(e)[:120]))
+        ctx.violation('uc:constructor-raises', 'pyPRISM.util.UnitConverter(dc=%r %s, mc=%r %s, ec=%r %s) raises %s: %s' % (dcv, case['dc_unit'], cfg.get('mc'), cfg.get('mc_unit'), ecv, cfg.get('ec_unit'), type(e).__name__, str(e)[:120]))
         return
     if type(uc) is not UnitConverter:
         ctx.violation('uc:constructor-returns-other-class', 'pyPRISM.util.UnitConverter is not the documented class (%r)' % type(uc))
@@ -149,6 +168,8 @@ def run_case(ctx, case):
     _S['cfg'] = {id(uc): cfg}
     if case['arg'] == 'scalar':
         x = float(10 ** rng.uniform(-3, 3))
+        if case['seed'] % 5 == 0:
+            x = [0.0, 0, -0.0, -1.5][case['seed'] // 5 % 4]          # a pure-component end point (zero density), 0 K, a negative reduced value
     elif case['arg'] == 'int':
         x = int(rng.integers(1, 50))
     elif case['arg'] == 'intarray':
